@@ -210,4 +210,12 @@ def r05_refused(ctx):
     ctx.borrow(lambda c: c04.r04_guard(c, 'R05.7'), 'R05.7')
 
 
-RULES = [('R05.7', r05_refused), ('R05.1', r05_1), ('R05.2', r05_2), ('R05.3', r05_3), ('R05.4', r05_4), ('R05.5', r05_5), ('R05.6', r05_6)]
+def r05_stream_port(ctx):
+    """The same holds where the bytes come off a connection: a socket port hands its parser every byte that has arrived, however
+    the stream was segmented - nothing stays behind in a buffer of its own that the readiness test cannot see (shared with
+    C18 R18.6)."""
+    from . import c18
+    ctx.borrow(c18.r18_live, 'R05.8')
+
+
+RULES = [('R05.8', r05_stream_port), ('R05.7', r05_refused), ('R05.1', r05_1), ('R05.2', r05_2), ('R05.3', r05_3), ('R05.4', r05_4), ('R05.5', r05_5), ('R05.6', r05_6)]
